@@ -926,12 +926,16 @@ STRUCT = [
 
 
 def self_attr(n):
-    """`self.x`, `self.x.values()`, `self.x or []`, `self.x[i]`, `enumerate(self.x)`, `range(len(self.x))` -> 'x' (no leading '_')."""
+    """`self.x`, `self.x.values()`, `self.x or []`, `self.x[i]`, `enumerate(self.x)`, `range(len(self.x))`, `sorted(self.x)`,
+    `{f(e) for e in self.x...}` / `[...]` / `(...)` (a comprehension over it) -> 'x' (no leading '_')."""
     while True:
         if isinstance(n, ast.Call) and isinstance(n.func, ast.Attribute) and n.func.attr in ("values", "items", "copy") and not n.args:
             n = n.func.value
-        elif isinstance(n, ast.Call) and isinstance(n.func, ast.Name) and n.func.id in ("enumerate", "range", "len", "list") and len(n.args) == 1:
+        elif isinstance(n, ast.Call) and isinstance(n.func, ast.Name) and n.func.id in ("enumerate", "range", "len", "list", "set", "tuple",
+                                                                                       "sorted", "reversed") and len(n.args) >= 1:
             n = n.args[0]
+        elif isinstance(n, (ast.SetComp, ast.ListComp, ast.GeneratorExp)) and len(n.generators) == 1:
+            n = n.generators[0].iter
         elif isinstance(n, ast.BoolOp) and isinstance(n.op, ast.Or):
             n = n.values[0]
         elif isinstance(n, ast.Subscript):
@@ -943,8 +947,16 @@ def self_attr(n):
     return None
 
 
+def rooted_at(n, names):
+    """`x`, `x.a`, `x.a.b`, `x.a[i]` with x one of `names`"""
+    while isinstance(n, (ast.Attribute, ast.Subscript)):
+        n = n.value
+    return isinstance(n, ast.Name) and n.id in names
+
+
 def moved_attrs(fn):
-    """attributes of `self` that `translate_rotate` assigns, calls `.translate_rotate` on, or walks with a loop whose body moves the element"""
+    """attributes of `self` that `translate_rotate` assigns, calls `.translate_rotate` on, or walks with a loop whose body moves the
+    element (calls `.translate_rotate` on the element or on a part of it, or assigns a part of it)"""
     out = set()
     for n in ast.walk(fn):
         if isinstance(n, ast.Assign):
@@ -957,12 +969,17 @@ def moved_attrs(fn):
             a = self_attr(n.func.value)
             if a:
                 out.add(a)
-        if isinstance(n, (ast.For, ast.comprehension)):
-            body = n.body if isinstance(n, ast.For) else []
+        if isinstance(n, ast.For):
             names = {x.id for x in ast.walk(n.target) if isinstance(x, ast.Name)}
-            moves = any(isinstance(c, ast.Call) and isinstance(c.func, ast.Attribute) and c.func.attr == "translate_rotate"
-                        and isinstance(c.func.value, ast.Name) and c.func.value.id in names
-                        for b in body for c in ast.walk(b))
+            moves = False
+            for b in n.body:
+                for c in ast.walk(b):
+                    if isinstance(c, ast.Call) and isinstance(c.func, ast.Attribute) and c.func.attr == "translate_rotate" \
+                            and rooted_at(c.func.value, names):
+                        moves = True
+                    if isinstance(c, ast.Assign) and any(isinstance(t, (ast.Attribute, ast.Subscript)) and rooted_at(t, names)
+                                                         for t in c.targets):
+                        moves = True
             a = self_attr(n.iter)
             if a and moves:
                 out.add(a)
